@@ -140,6 +140,8 @@ func RunPipeline(seed int64, tier, driver, outDir string, n int, search bool, co
 		navBudget--
 		NavPhase(d, cases[i], runs[i], *snaps[i])
 	}
+	// an exported session imports to the same records
+	expFails, expClients, expRecords := ExportImport(ctx, d, tmp)
 	var mcases []core.Case
 	for _, run := range runs {
 		mcases = append(mcases, core.Case{Lines: run.Lines})
@@ -243,7 +245,11 @@ func RunPipeline(seed int64, tier, driver, outDir string, n int, search bool, co
 			res.Failures = append(res.Failures, core.FailRec{Prop: "C16", Msg: msg, File: file, Finding: Finding(msg)})
 		}
 	}
-	res.Extra = map[string]any{"records": recs, "lookups": lks, "cursor_moves": navs}
+	for _, msg := range expFails {
+		file := save(outDir, fmt.Sprintf("C16-seed%d-export%d.dbgcase", seed, len(res.Failures)), []string{fmt.Sprintf("# whole run: seed=%d tier=%s", seed, tier)}, "export / import of the session: "+msg)
+		res.Failures = append(res.Failures, core.FailRec{Prop: "C16", Msg: msg, File: file})
+	}
+	res.Extra = map[string]any{"records": recs, "lookups": lks, "cursor_moves": navs, "exported_clients": expClients, "exported_records": expRecords}
 	res.WallS = time.Since(t0).Seconds()
 	return res
 }
